@@ -117,6 +117,10 @@ def _part_body(i):
             part[k] = v
     if i > 0:
         part._merge_parent = PARTS[i - 1]()
+    if spec.get("publish"):
+        # published under a key of the caller's choosing (an updated dataset is published under the key of the previous one)
+        from twosigma.memento.result import KeyOverrideResult
+        return KeyOverrideResult(part, spec["publish"])
     return part
 
 
